@@ -355,6 +355,12 @@ fn gen_c05(seed: u64, n: u64, out: &mut Out) {
     let mut rng = Rng::new(seed ^ 0xC05);
     let names = ["a", "b", "c"];
     for _ in 0..n {
+        if rng.chance(1, 3) {
+            let (src, exp) = c05_scoped(&mut rng);
+            let exp_hex: Vec<String> = exp.iter().map(|t| util::hex(t.as_bytes())).collect();
+            out.line(&request_with(&src, false, Some("c05scoped"), Some(&exp_hex.join(","))));
+            continue;
+        }
         let mut vars: Vec<V> = (0..3).map(|_| V::Arr((0..1 + rng.below(3)).map(|_| rand_val(&mut rng, 2)).collect())).collect();
         let mut src = String::new();
         let mut exp: Vec<String> = Vec::new();
@@ -465,6 +471,214 @@ fn gen_c05(seed: u64, n: u64, out: &mut Out) {
         let exp_hex: Vec<String> = exp.iter().map(|t| util::hex(t.as_bytes())).collect();
         out.line(&request_with(&src, false, Some("c05tmpl"), Some(&exp_hex.join(","))));
     }
+}
+
+/// A non-empty array of 2..3 non-empty flat sub-arrays.
+fn rand_grid(rng: &mut Rng) -> V {
+    V::Arr(
+        (0..2 + rng.below(2))
+            .map(|_| {
+                V::Arr(
+                    (0..2 + rng.below(2))
+                        .map(|_| if rng.chance(1, 2) { V::Num(rng.range(0, 99)) } else { V::Str((*rng.pick(&["s", "tt", "é", "w x"])).to_string()) })
+                        .collect(),
+                )
+            })
+            .collect(),
+    )
+}
+
+/// One mutation / read of an array of arrays through an index chain.
+#[derive(Clone, Copy, Debug)]
+enum ChainStep {
+    Push(usize),
+    Pop(usize),
+    Rev(usize),
+    Set(usize, usize),
+    Read(usize, usize),
+    PushRow,
+}
+
+impl ChainStep {
+    fn random(rng: &mut Rng, target: &V) -> ChainStep {
+        let V::Arr(rows) = target else { return ChainStep::PushRow };
+        let i = rng.below(rows.len() as u64) as usize;
+        let n = match &rows[i] {
+            V::Arr(r) => r.len().max(1),
+            _ => 1,
+        };
+        let k = rng.below(n as u64) as usize;
+        match rng.below(8) {
+            0 | 1 => ChainStep::Push(i),
+            2 => ChainStep::Pop(i),
+            3 => ChainStep::Rev(i),
+            4 | 5 => ChainStep::Set(i, k),
+            6 => ChainStep::Read(i, k),
+            _ => ChainStep::PushRow,
+        }
+    }
+    fn text(self, name: &str, lit: &str) -> String {
+        match self {
+            ChainStep::Push(i) => format!("{name}[{i}].push({lit})"),
+            ChainStep::Pop(i) => format!("shout({name}[{i}].pop())"),
+            ChainStep::Rev(i) => format!("{name}[{i}].reverse()"),
+            ChainStep::Set(i, k) => format!("{name}[{i}][{k}] get {lit}"),
+            ChainStep::Read(i, k) => format!("shout({name}[{i}][{k}])"),
+            ChainStep::PushRow => format!("{name}.push([{lit}])"),
+        }
+    }
+    /// Apply to the Rust value; `None` when the statement would end the run with an error (or print `null`).
+    fn apply(self, target: &mut V, val: &V) -> Option<Option<String>> {
+        let V::Arr(rows) = target else { return None };
+        fn row(rows: &mut [V], i: usize) -> Option<&mut Vec<V>> {
+            match rows.get_mut(i)? {
+                V::Arr(r) => Some(r),
+                _ => None,
+            }
+        }
+        match self {
+            ChainStep::Push(i) => {
+                let r = row(rows, i)?;
+                if r.len() >= 6 {
+                    return None;
+                }
+                r.push(val.clone());
+                Some(None)
+            }
+            ChainStep::Pop(i) => {
+                let r = row(rows, i)?;
+                if r.len() < 2 {
+                    return None;
+                }
+                Some(Some(r.pop().unwrap().show(true)))
+            }
+            ChainStep::Rev(i) => {
+                let r = row(rows, i)?;
+                r.reverse();
+                Some(None)
+            }
+            ChainStep::Set(i, k) => {
+                let r = row(rows, i)?;
+                *r.get_mut(k)? = val.clone();
+                Some(None)
+            }
+            ChainStep::Read(i, k) => {
+                let r = row(rows, i)?;
+                Some(Some(r.get(k)?.show(true)))
+            }
+            ChainStep::PushRow => {
+                if rows.len() >= 5 {
+                    return None;
+                }
+                rows.push(V::Arr(vec![val.clone()]));
+                Some(None)
+            }
+        }
+    }
+}
+
+fn c05_val(rng: &mut Rng) -> V {
+    if rng.chance(1, 2) { V::Num(rng.range(0, 99)) } else { V::Str((*rng.pick(&["p", "qq", "ü", "w x"])).to_string()) }
+}
+
+/// All steps of a function body on a copy of the captured array: `None` if one of them would fail now.
+fn c05_replay(steps: &[ChainStep], g: &V, val: &V) -> Option<(V, Vec<String>)> {
+    let mut copy = g.clone();
+    let mut outs = Vec::new();
+    for st in steps {
+        if let Some(o) = st.apply(&mut copy, val)? {
+            outs.push(o);
+        }
+    }
+    Some((copy, outs))
+}
+
+/// Statements of a function that holds ITS OWN array `own` called `name` and interleaves calls of the
+/// functions working on the captured array `g` (same name) with the same kind of steps on its own array.
+fn c05_holder(rng: &mut Rng, name: &str, fns: &[Vec<ChainStep>], own: &mut V, g: &mut V, exp: &mut Vec<String>) -> String {
+    let mut body = String::new();
+    for _ in 0..2 + rng.below(5) {
+        let val = c05_val(rng);
+        match rng.below(6) {
+            0..=2 => {
+                let f = rng.below(fns.len() as u64) as usize;
+                if let Some((ng, outs)) = c05_replay(&fns[f], g, &val) {
+                    *g = ng;
+                    exp.extend(outs);
+                    body.push_str(&format!("  touch{f}({})\n", val.lit()));
+                }
+            }
+            3 | 4 => {
+                // the mirror: a step on the holder's own array must not reach the captured one
+                let st = ChainStep::random(rng, own);
+                if let Some(out) = st.apply(own, &val) {
+                    body.push_str(&format!("  {}\n", st.text(name, &val.lit())));
+                    exp.extend(out);
+                }
+            }
+            _ => {
+                body.push_str("  show()\n");
+                exp.push(g.show(true));
+            }
+        }
+    }
+    body
+}
+
+/// C05 x C04: functions mutate and read a CAPTURED top-level array through index chains
+/// (`x[i].push/pop/reverse`, `x[i][j] get v`, `x.push`) while functions on the call chain hold an
+/// unrelated local or parameter of THE SAME NAME, which they mutate the same way. Every array may only
+/// change through the code that lexically refers to it. Expected output computed here.
+fn c05_scoped(rng: &mut Rng) -> (String, Vec<String>) {
+    let name = *rng.pick(&["data", "xs", "grid", "items"]);
+    let mut g = rand_grid(rng); // the captured, top-level array
+    let mut l = rand_grid(rng); // the caller's array of the same name
+    let mut m = rand_grid(rng); // the intermediate function's array of the same name
+    let (l0, m0) = (l.lit(), m.lit());
+    let by_param = rng.chance(1, 3);
+    let via_mid = rng.chance(1, 2);
+    let mut exp: Vec<String> = Vec::new();
+    let mut src = format!("make {name} get {}\n", g.lit());
+    let mut fns: Vec<Vec<ChainStep>> = Vec::new();
+    for f in 0..2 + rng.below(3) {
+        let mut scratch = g.clone();
+        let mut steps = Vec::new();
+        for _ in 0..1 + rng.below(3) {
+            let st = ChainStep::random(rng, &scratch);
+            if st.apply(&mut scratch, &V::Num(0)).is_some() {
+                steps.push(st);
+            }
+        }
+        src.push_str(&format!("do touch{f}(v) start\n"));
+        for st in &steps {
+            src.push_str(&format!("  {}\n", st.text(name, "v")));
+        }
+        src.push_str("end\n");
+        fns.push(steps);
+    }
+    src.push_str(&format!("do show() start shout({name}) end\n"));
+    // generation order = execution order: caller's first half, the intermediate function, second half
+    let half1 = c05_holder(rng, name, &fns, &mut l, &mut g, &mut exp);
+    let mut mid_body = String::new();
+    if via_mid {
+        mid_body = c05_holder(rng, name, &fns, &mut m, &mut g, &mut exp);
+        exp.push(m.show(true));
+    }
+    let half2 = c05_holder(rng, name, &fns, &mut l, &mut g, &mut exp);
+    exp.push(l.show(true));
+    if via_mid {
+        src.push_str(&format!("do mid() start\n  make {name} get {m0}\n{mid_body}  shout({name})\nend\n"));
+    }
+    let mid_call = if via_mid { "  mid()\n" } else { "" };
+    if by_param {
+        src.push_str(&format!("do caller({name}) start\n{half1}{mid_call}{half2}  shout({name})\nend\ncaller({l0})\n"));
+    } else {
+        src.push_str(&format!("do caller() start\n  make {name} get {l0}\n{half1}{mid_call}{half2}  shout({name})\nend\ncaller()\n"));
+    }
+    src.push_str(&format!("show()\nshout({name})\n"));
+    exp.push(g.show(true));
+    exp.push(g.show(true));
+    (src, exp)
 }
 
 /// `show`: print generated program texts (debugging aid).
